@@ -29,7 +29,7 @@ CHECKS = {
         "explanation": "bounded exploration by the symbolic executor of replication/failover histories over three real commit logs: (c) the real replication data path end to end (leader messageProcessingLoop + commitLoop, real replicators, real follower sendReplicationRequest/handleReplicationResponse, ISR changes proposed by the real replicator) with NATS request/reply as direct calls; (a) a step harness whose glue mirrors partition.go/replicator.go with calls to real log functions only, (b) a phase-structured three-term failover harness in which every (re)joining follower runs the real partition.truncateUncommitted against the real partition.handleLeaderOffsetRequest",
         "assumptions": ["NATS transport (loss, delay, reordering, timeouts), hashicorp/raft, wall-clock lag detection are outside; request/reply is synchronous",
                         "in harness (a) the fetch/commit/ISR glue is mirrored (hand transcription of replicator.start/replicate/tick, handleReplicationResponse, commitLoop): a regression in that glue itself is not seen by harness (a) but by the pipeline harness (c), which runs the real glue within one leader epoch; regressions in the log, the epoch cache, NewLeaderEpoch, LastOffsetForLeaderEpoch, Truncate, handleLeaderOffsetRequest and truncateUncommitted are",
-                        "a crashed leader loses its in-memory replica offsets; a leader that steps down without crashing and leads again later is outside",
+                        "in harnesses (a)-(c) a crashed leader loses its in-memory replica offsets; a leader that steps down without crashing and leads again is harness (d) VerifC02Reelected",
                         "3 replicas, message values are 1 symbolic byte, epochs concrete increasing"],
         "groups": [
             {"pkg": "./server/commitlog", "overlay": "commitlog", "pkgname": "commitlog",
@@ -398,8 +398,8 @@ CHECKS["SELFTEST"] = {
 TECH = "bounded symbolic execution of the real Go code (go/ssa) with z3; counterexamples replayed natively"
 
 META = {
-    "C02": {"text": "Bounded model checking of the replication protocol over the real log code: (a) every history of k steps from {publish, follower fetch, commit = min over ISR, leader crash + election from the ISR, (re)join with log reconciliation, ISR shrink/expand} on three real commit logs, glue mirrored from partition.go/replicator.go; (b) three leadership terms a -> x -> y with 0-2 messages per term, per-follower fetch counts, HW propagation choices, the first leader rejoining, using the real truncateUncommitted/handleLeaderOffsetRequest. After every step/phase: any two replicas agree at or below both HWs (value and leader epoch), every message ever committed is unchanged on the current leader.",
-            "design_ref": "DESIGN.md §4 C02", "note": "bounds: (a) 5 (quick) / 7 (thorough) steps, <= 1 / 2 elections; (b) 3 terms with <= 2/1/1 (quick) or 2/2/2 (thorough) messages per term, fetches are single batched message sets; transport and Raft are outside; the step harness's glue is hand-mirrored (see assumptions); message values symbolic (solver decides byte equalities)", "technique": TECH},
+    "C02": {"text": "Bounded model checking of the replication protocol over the real log code: (a) every history of k steps from {publish, follower fetch, commit = min over ISR, leader crash + election from the ISR, (re)join with log reconciliation, ISR shrink/expand} on three real commit logs, glue mirrored from partition.go/replicator.go; (b) three leadership terms a -> x -> y with 0-2 messages per term, per-follower fetch counts, HW propagation choices, the first leader rejoining, using the real truncateUncommitted/handleLeaderOffsetRequest; (c) the real data path within one leader epoch (leader loops, replicators, follower request/response handlers); (d) a leader that steps down without restarting and leads again (a -> b|c -> a) through the real becomeLeader/becomeFollower with the real leader loops and replicators in every term: the leader's HW never exceeds its own log nor what a replica it lists in sync holds, ALL-acks only for what every listed replica holds. After every step/phase: any two replicas agree at or below both HWs (value and leader epoch), every message ever committed is unchanged on the current leader.",
+            "design_ref": "DESIGN.md §4 C02", "note": "bounds: (a) 5 (quick) / 7 (thorough) steps, <= 1 / 2 elections; (b) 3 terms with <= 2/1/1 (quick) or 2/2/2 (thorough) messages per term, fetches are single batched message sets; (d) 3/1/3 (quick) or 4/2/4 (thorough) steps per term from {publish, follower fetch, removal of the crashed second leader from the ISR}; transport and Raft are outside; the step harness's glue is hand-mirrored (see assumptions); message values symbolic (solver decides byte equalities)", "technique": TECH},
     "C18": {"text": "Bounded model checking of the implementation by the symbolic executor: a Raft log of event-kind operations, non-event operations and non-command entries is committed step by step while the real dispatcher goroutine runs; publishes and marker applies fail by choice (bounded), leadership is lost and regained, the manager restarts from the recovered marker; back-off timers are virtual. The recorded publish sequence is checked for at-least-once, id = Raft index, commit order of first appearances and head-of-line blocking.",
             "design_ref": "DESIGN.md §4 C18", "note": "bounds: 2-3 operations, 4-5 steps (commit with drain / run-until-blocked / burst, failover, restart, restart from a snapshot with or without log compaction up to the last published entry), 1-2 publish failures, 1 marker failure; concrete-shaped data (exhaustive enumeration of decision vectors); replay by concrete re-execution", "technique": TECH},
     "C11": {"text": "Bounded model checking of the implementation by the symbolic executor: every sequence of k operations from {SetCursor, FetchCursor (2 cursor ids), cache purge / become leader, compaction of the cursors log, pause+resume (log closed and reopened), restart (fresh cache), a cleaner interval passing (the log's own cleaner loop rolls an aged active segment, then compacts)} on the real cursor manager + reverse subscription + commit log; every fetch is compared with a map model.",
